@@ -3,203 +3,328 @@ import UF.Proofs.ProgStep
   Runs of the Prog model: one thread alone (`runThread`, `runQuery`, termination within the fuel
   bound), histories, and schedules of many threads.  The invariant carried through is
 
-      CacheInv state  ∧  every thread: TInv ∧ (started → rel (total t) (stateless storage answer))
+      SInv state  ∧  every thread: TInv ∧ RxOK (relative to the CURRENT shared state) ∧ not crashed ∧ P
 
-  with `rel = Eq` when no list is ever closed and `rel = Sublist` in general.
+  with `P = GoodEq` (`Tot` = the stateless answer) when no list is ever closed, and `P = Sound`
+  (UF/Proofs/ProgSound.lean) in general.
 -/
 namespace UF.Prog
-variable {R : Type}
+variable {R Re : Type}
 
-/-- Thread invariant with the relation between `total` and the stateless answer as a parameter. -/
-def Good (rel : List R → List R → Prop) (env : Env R) (t : Thread R) : Prop :=
-  TInv env t ∧ (t.pc ≠ .start → rel (total env t) (pureStorage env (env.reqOf t.q) (env.cands (env.reqOf t.q))))
+/-- What a thread needs from itself and from the shared state. -/
+def Good (env : Env R Re) (s : State R Re) (t : Thread R) : Prop := TInv env t ∧ RxOK s t ∧ t.pc ≠ .crash
 
-theorem good_init (rel : List R → List R → Prop) (env : Env R) (q : Query) : Good rel env (Thread.init q) :=
-  ⟨tinv_init env q, fun h => absurd rfl h⟩
+/-- The thread's bookkeeping equals the stateless answer of its stage. -/
+def GoodEq (env : Env R Re) (t : Thread R) : Prop :=
+  t.pc ≠ .start → t.q.trivial = false → Tot env t = target env t
 
-/-- No faults: `total` stays EQUAL to the stateless answer. -/
-theorem step_good_eq {env : Env R} {s : State R} {t : Thread R} (hc : CacheInv env s) (h0 : s.closed = [])
-    (hg : Good Eq env t) : Good Eq env (step env s t).2 := by
-  refine ⟨step_tinv hg.1, fun _ => ?_⟩
-  rw [step_q]
-  by_cases hs : t.pc = .start
-  · exact step_total_start env s t hs
-  · rcases step_total hc hg.1 hs with h | ⟨h, _⟩
-    · rw [h]; exact hg.2 hs
-    · exact absurd h0 h
+theorem good_init (env : Env R Re) (s : State R Re) (q : Query) : Good env s (Thread.init q) :=
+  ⟨tinv_init env q, fun _ _ h => by simp [Thread.init] at h, by simp [Thread.init]⟩
 
-/-- With faults: `total` stays a SUBLIST of the stateless answer. -/
-theorem step_good_sub {env : Env R} {s : State R} {t : Thread R} (hc : CacheInv env s)
-    (hg : Good List.Sublist env t) : Good List.Sublist env (step env s t).2 := by
-  refine ⟨step_tinv hg.1, fun _ => ?_⟩
-  rw [step_q]
-  by_cases hs : t.pc = .start
-  · rw [step_total_start env s t hs]; exact List.Sublist.refl _
-  · rcases step_total hc hg.1 hs with h | ⟨_, h⟩
-    · rw [h]; exact hg.2 hs
-    · exact h.trans (hg.2 hs)
+theorem goodEq_init (env : Env R Re) (q : Query) : GoodEq env (Thread.init q : Thread R) :=
+  fun h => absurd rfl h
 
-/-- A finished thread has collected exactly its `total`. -/
-theorem total_done {env : Env R} {t : Thread R} (ht : TInv env t) (hd : t.pc = .done) : total env t = t.acc := by
-  have := ht.fin_todo (Or.inr hd)
-  simp [total, pend, hd, this, pureStorage_nil]
+/-- No crash: with the nil checks in place the only dereference left is `f.regex`, which `RxOK` covers. -/
+theorem step_no_crash {env : Env R Re} {s : State R Re} {t : Thread R} (hrx : RxOK s t) (hc : t.pc ≠ .crash) :
+    (step env s t).2.pc ≠ .crash := by
+  rcases t with ⟨q, pc, req, todo, acc, stage⟩
+  cases pc with
+  | rx it r =>
+    obtain ⟨x, hx⟩ := hrx it r rfl
+    simp only [step, stepG, hx]
+    exact advance_pc_ne_crash _
+  | crash => exact absurd rfl hc
+  | use src idx o =>
+    simp only [step, stepG]
+    cases o with
+    | none => simp only [if_true]; exact advance_pc_ne_crash _
+    | some r =>
+      simp only
+      repeat' split
+      all_goals first | exact advance_pc_ne_crash _ | simp
+  | _ =>
+    simp only [step, stepG] <;> repeat' split
+    all_goals first | exact advance_pc_ne_crash _ | simp
 
-theorem answer_of_good_eq {env : Env R} {t : Thread R} (hg : Good Eq env t) (hd : t.pc = .done) :
-    t.answer env = pureAnswer env t.q := by
+theorem step_good {env : Env R Re} {s : State R Re} {t : Thread R} (hs : SInv env s) (hg : Good env s t) :
+    Good env (step env s t).1 (step env s t).2 :=
+  ⟨step_tinv hs.1 hg.1, step_rxOK env s t, step_no_crash hg.2.1 hg.2.2⟩
+
+/-- Rely: actions of OTHER threads keep a thread `Good`. -/
+theorem good_mono {env : Env R Re} {s s' : State R Re} {t : Thread R} (hle : CellsLe s s') (hg : Good env s t) :
+    Good env s' t :=
+  ⟨hg.1, rxOK_mono hle hg.2.1, hg.2.2⟩
+
+theorem target_step {env : Env R Re} {s : State R Re} {t : Thread R} (hst : t.pc ≠ .start) (hm : t.pc ≠ .mid) :
+    target env (step env s t).2 = target env t := by
+  simp only [target, step_stage hst hm, step_q, step_req hst]
+
+/-- No faults: `Tot` stays EQUAL to the stateless answer. -/
+theorem step_goodEq {env : Env R Re} {s : State R Re} {t : Thread R} (hs : SInv env s) (h0 : s.closed = [])
+    (hg : Good env s t) (he : GoodEq env t) : GoodEq env (step env s t).2 := by
+  intro _ hq
+  rw [step_q] at hq
+  by_cases hst : t.pc = .start
+  · exact (step_tot_start env s t hst hq).1
+  · by_cases hm : t.pc = .mid
+    · exact step_tot_mid hg.1 hm (he hst hq)
+    · rw [step_tot hs h0 hg.1 hg.2.1 hst hm, target_step hst hm]
+      exact he hst hq
+
+theorem nets_nil : nets ([] : List (Item × R)) = [] := rfl
+theorem hosts_nil : hosts ([] : List (Item × R)) = [] := rfl
+
+/-- A finished thread has collected exactly its `Tot`, and is in the second stage. -/
+theorem answer_of_goodEq {env : Env R Re} {t : Thread R} (ht : TInv env t) (he : GoodEq env t) (hd : t.pc = .done) :
+    t.answer = pureAnswer env t.q := by
   have hs : t.pc ≠ .start := by rw [hd]; simp
-  have h1 := hg.2 hs
-  rw [total_done hg.1 hd] at h1
-  simp [Thread.answer, pureAnswer, h1, hg.1.req_eq hs]
-
-theorem answer_of_good_sub {env : Env R} {t : Thread R} (hg : Good List.Sublist env t) (hd : t.pc = .done) :
-    (t.answer env).Sublist (pureAnswer env t.q) := by
-  have hs : t.pc ≠ .start := by rw [hd]; simp
-  have h1 := hg.2 hs
-  rw [total_done hg.1 hd] at h1
-  simp only [Thread.answer, pureAnswer, hg.1.req_eq hs]
-  exact List.Sublist.append h1 (List.Sublist.refl _)
+  cases hq : t.q.trivial with
+  | true =>
+    have := (ht.triv hq hs).2
+    simp [Thread.answer, pureAnswer, hq, this, nets_nil, hosts_nil]
+  | false =>
+    have h1 := he hs hq
+    have h2 := ht.end_todo (Or.inr (Or.inr hd))
+    have h3 := ht.done_stage hd hq
+    have h4 := ht.req_eq hs hq
+    simp only [Tot, pendAcc, hd, h2, pureFold_nil, target, h3, if_true] at h1
+    simp [Thread.answer, pureAnswer, hq, h1, h4]
 
 /-! ### one thread alone -/
 
-theorem advance_fuel (t : Thread R) : t.advance.fuel = 4 * t.todo.length + 1 := by
+theorem items2_length (env : Env R Re) (q : Query) (req : Request) (nrs : List R) :
+    (env.items2 q req nrs).length ≤ (env.hcands req).length := by
+  unfold Env.items2
+  cases q with
+  | web _ => simp
+  | dns _ => simp only; split <;> simp
+
+/-- the part of the fuel bound that does not depend on the pending item -/
+def Thread.tail (env : Env R Re) (t : Thread R) : Nat :=
+  if t.stage then 1 else 6 * (env.hcands t.req).length + 3
+
+theorem advance_fuel (env : Env R Re) (t : Thread R) : t.advance.fuel env ≤ 6 * t.todo.length + t.tail env := by
   unfold Thread.advance
   cases h : t.todo with
-  | nil => simp [Thread.fuel]
-  | cons i rest => simp [Thread.fuel]; omega
+  | nil =>
+    cases hs : t.stage <;> simp [Thread.fuel, Thread.tail, hs]
+  | cons i rest =>
+    cases i <;> simp [Thread.fuel, Thread.tail] <;> omega
 
 /-- Every action of an unfinished, started thread consumes fuel. -/
-theorem step_fuel (env : Env R) (s : State R) (t : Thread R) (hs : t.pc ≠ .start) (hd : t.pc ≠ .done) :
-    (step env s t).2.fuel + 1 ≤ t.fuel := by
-  rcases t with ⟨q, pc, req, todo, acc⟩
+theorem step_fuel (env : Env R Re) (s : State R Re) (t : Thread R) (hs : t.pc ≠ .start) (hd : t.pc ≠ .done)
+    (hc : t.pc ≠ .crash) : (step env s t).2.fuel env + 1 ≤ t.fuel env ∨ (step env s t).2.pc = .crash := by
+  rcases t with ⟨q, pc, req, todo, acc, stage⟩
   cases pc with
   | start => exact absurd rfl hs
-  | get idx => simp only [step]; split <;> simp [Thread.fuel]
-  | read idx =>
-    simp only [step]; split
-    · rw [advance_fuel]; simp [Thread.fuel]
-    · split
-      · simp [Thread.fuel]
-      · rw [advance_fuel]; simp [Thread.fuel]
-  | put idx r => simp only [step]; split <;> simp [Thread.fuel]
-  | comp r =>
-    simp only [step, advance_fuel]
-    split <;> simp [Thread.fuel]
-  | fin => cases q <;> simp [step, Thread.fuel]
   | done => exact absurd rfl hd
+  | crash => exact absurd rfl hc
+  | mid =>
+    left
+    simp only [step, stepG]
+    have h1 := advance_fuel env ({ q := q, pc := PC.mid, req := req, todo := env.items2 q req (nets acc), acc := acc, stage := true } : Thread R)
+    have h2 := items2_length env q req (nets acc)
+    simp only [Thread.tail, if_true] at h1
+    have h3 : Thread.fuel env ({ q := q, pc := PC.mid, req := req, todo := todo, acc := acc, stage := stage } : Thread R) =
+        6 * (env.hcands req).length + 2 := rfl
+    rw [h3]
+    omega
+  | fin => left; cases q <;> simp [step, stepG, Thread.fuel]
+  | get src idx => left; simp only [step, stepG]; split <;> (simp only [Thread.fuel]; omega)
+  | read src idx => left; simp only [step, stepG]; split <;> (try split) <;> (simp only [Thread.fuel]; omega)
+  | put src idx r => left; simp only [step, stepG]; split <;> (simp only [Thread.fuel]; omega)
+  | use src idx o =>
+    left
+    have key : ∀ (t' : Thread R), t'.todo = todo → t'.stage = stage → t'.req = req →
+        t'.advance.fuel env + 1 ≤ 3 + 6 * todo.length + (if stage then 1 else 6 * (env.hcands req).length + 3) := by
+      intro t' h1 h2 h3
+      have := advance_fuel env t'
+      simp only [Thread.tail, h1, h2, h3] at this
+      omega
+    simp only [step, stepG]
+    cases o with
+    | none => simp only [if_true]; simp only [Thread.fuel]; exact key _ rfl rfl rfl
+    | some r =>
+      simp only
+      split
+      · simp only [Thread.fuel]; exact key _ rfl rfl rfl
+      · split
+        · split <;> (simp only [Thread.fuel]; exact key _ rfl rfl rfl)
+        · split
+          · simp only [Thread.fuel]; omega
+          · simp only [Thread.fuel]; exact key _ rfl rfl rfl
+  | seq k =>
+    left
+    have key : ∀ (t' : Thread R), t'.todo = todo → t'.stage = stage → t'.req = req →
+        t'.advance.fuel env + 1 ≤ 3 + 6 * todo.length + (if stage then 1 else 6 * (env.hcands req).length + 3) := by
+      intro t' h1 h2 h3
+      have := advance_fuel env t'
+      simp only [Thread.tail, h1, h2, h3] at this
+      omega
+    simp only [step, stepG]
+    split
+    · simp only [Thread.fuel]; exact key _ rfl rfl rfl
+    · split
+      · simp only [Thread.fuel]; omega
+      · simp only [Thread.fuel]; exact key _ rfl rfl rfl
+  | prep it r =>
+    left
+    have key : ∀ (t' : Thread R), t'.todo = todo → t'.stage = stage → t'.req = req →
+        t'.advance.fuel env + 1 ≤ 2 + 6 * todo.length + (if stage then 1 else 6 * (env.hcands req).length + 3) := by
+      intro t' h1 h2 h3
+      have := advance_fuel env t'
+      simp only [Thread.tail, h1, h2, h3] at this
+      omega
+    simp only [step, stepG]
+    split
+    · simp only [Thread.fuel]; omega
+    · simp only [Thread.fuel]; exact key _ rfl rfl rfl
+    · split
+      · simp only [Thread.fuel]; exact key _ rfl rfl rfl
+      · simp only [Thread.fuel]; omega
+      · simp only [Thread.fuel]; exact key _ rfl rfl rfl
+  | rx it r =>
+    have key : ∀ (t' : Thread R), t'.todo = todo → t'.stage = stage → t'.req = req →
+        t'.advance.fuel env + 1 ≤ 1 + 6 * todo.length + (if stage then 1 else 6 * (env.hcands req).length + 3) := by
+      intro t' h1 h2 h3
+      have := advance_fuel env t'
+      simp only [Thread.tail, h1, h2, h3] at this
+      omega
+    simp only [step, stepG]
+    split
+    · left; split <;> (simp only [Thread.fuel]; exact key _ rfl rfl rfl)
+    · right; rfl
 
-theorem step_done (env : Env R) (s : State R) (t : Thread R) (hd : t.pc = .done) : step env s t = (s, t) := by
-  rcases t with ⟨q, pc, req, todo, acc⟩
+theorem step_done (env : Env R Re) (s : State R Re) (t : Thread R) (hd : t.pc = .done) : step env s t = (s, t) := by
+  rcases t with ⟨q, pc, req, todo, acc, stage⟩
   simp at hd; subst hd; rfl
 
-/-- Totality: a started thread run alone for at least `fuel` actions is finished. -/
-theorem runThread_done (env : Env R) : ∀ (n : Nat) (s : State R) (t : Thread R), t.pc ≠ .start → t.fuel ≤ n →
-    (runThread env n s t).2.pc = .done := by
+theorem step_crash (env : Env R Re) (s : State R Re) (t : Thread R) (hd : t.pc = .crash) : step env s t = (s, t) := by
+  rcases t with ⟨q, pc, req, todo, acc, stage⟩
+  simp at hd; subst hd; rfl
+
+/-- Totality: a started thread run alone for at least `fuel` actions has finished or crashed. -/
+theorem runThread_done (env : Env R Re) : ∀ (n : Nat) (s : State R Re) (t : Thread R), t.pc ≠ .start →
+    t.fuel env ≤ n → (runThread env n s t).2.pc = .done ∨ (runThread env n s t).2.pc = .crash := by
   intro n
   induction n with
   | zero =>
     intro s t hs hf
-    rcases t with ⟨q, pc, req, todo, acc⟩
+    rcases t with ⟨q, pc, req, todo, acc, stage⟩
     cases pc <;> simp_all [Thread.fuel, runThread]
   | succ n ih =>
     intro s t hs hf
     simp only [runThread]
     by_cases hd : t.pc = .done
     · rw [step_done env s t hd]
-      exact ih s t hs (by rcases t with ⟨q, pc, req, todo, acc⟩; simp at hd; subst hd; simp [Thread.fuel])
-    · have := step_fuel env s t hs hd
-      exact ih _ _ (step_pc_ne_start env s t) (by omega)
+      exact ih s t hs (by rcases t with ⟨q, pc, req, todo, acc, stage⟩; simp at hd; subst hd; simp [Thread.fuel])
+    · by_cases hc : t.pc = .crash
+      · rw [step_crash env s t hc]
+        exact ih s t hs (by rcases t with ⟨q, pc, req, todo, acc, stage⟩; simp at hc; subst hc; simp [Thread.fuel])
+      · rcases step_fuel env s t hs hd hc with h | h
+        · exact ih _ _ (step_pc_ne_start env s t) (by omega)
+        · exact ih _ _ (step_pc_ne_start env s t) (by
+            generalize step env s t = p at h
+            rcases p with ⟨s', ⟨q, pc, req, todo, acc, stage⟩⟩
+            simp at h; subst h; simp [Thread.fuel])
 
 /-- Invariants along a solo run (any predicate preserved by `step`). -/
-theorem runThread_inv (env : Env R) (P : State R → Thread R → Prop)
+theorem runThread_inv (env : Env R Re) (P : State R Re → Thread R → Prop)
     (hstep : ∀ s t, P s t → P (step env s t).1 (step env s t).2) :
-    ∀ (n : Nat) (s : State R) (t : Thread R), P s t → P (runThread env n s t).1 (runThread env n s t).2 := by
+    ∀ (n : Nat) (s : State R Re) (t : Thread R), P s t → P (runThread env n s t).1 (runThread env n s t).2 := by
   intro n
   induction n with
   | zero => intro s t h; exact h
   | succ n ih => intro s t h; simp only [runThread]; exact ih _ _ (hstep s t h)
 
-theorem runQuery_eq (env : Env R) (s : State R) (q : Query) :
-    runQuery env s q = runThread env (step env s (Thread.init q)).2.fuel (step env s (Thread.init q)).1
+theorem runQuery_eq (env : Env R Re) (s : State R Re) (q : Query) :
+    runQuery env s q = runThread env ((step env s (Thread.init q)).2.fuel env) (step env s (Thread.init q)).1
       (step env s (Thread.init q)).2 := rfl
 
 /-- `runQuery` is a solo run of `fuel + 1` actions. -/
-theorem runQuery_inv (env : Env R) (P : State R → Thread R → Prop)
-    (hstep : ∀ s t, P s t → P (step env s t).1 (step env s t).2) (s : State R) (q : Query)
+theorem runQuery_inv (env : Env R Re) (P : State R Re → Thread R → Prop)
+    (hstep : ∀ s t, P s t → P (step env s t).1 (step env s t).2) (s : State R Re) (q : Query)
     (h : P s (Thread.init q)) : P (runQuery env s q).1 (runQuery env s q).2 := by
   rw [runQuery_eq]
   exact runThread_inv env P hstep _ _ _ (hstep _ _ h)
 
-theorem runQuery_done (env : Env R) (s : State R) (q : Query) : (runQuery env s q).2.pc = .done := by
+theorem runQuery_done_or_crash (env : Env R Re) (s : State R Re) (q : Query) :
+    (runQuery env s q).2.pc = .done ∨ (runQuery env s q).2.pc = .crash := by
   rw [runQuery_eq]
   exact runThread_done env _ _ _ (step_pc_ne_start env s _) (Nat.le_refl _)
 
-theorem runQuery_q (env : Env R) (s : State R) (q : Query) : (runQuery env s q).2.q = q :=
+theorem runQuery_q (env : Env R Re) (s : State R Re) (q : Query) : (runQuery env s q).2.q = q :=
   runQuery_inv env (fun _ t => t.q = q) (fun s t h => by rw [step_q]; exact h) s q rfl
 
-theorem runQuery_closed (env : Env R) (s : State R) (q : Query) : (runQuery env s q).1.closed = s.closed :=
+theorem runQuery_closed (env : Env R Re) (s : State R Re) (q : Query) : (runQuery env s q).1.closed = s.closed :=
   runQuery_inv env (fun s' _ => s'.closed = s.closed) (fun s' t h => by rw [step_closed]; exact h) s q rfl
 
-/-- Sequential, no faults: invariants after a query. -/
-theorem runQuery_good_eq {env : Env R} {s : State R} (q : Query) (hc : CacheInv env s) (h0 : s.closed = []) :
-    CacheInv env (runQuery env s q).1 ∧ Good Eq env (runQuery env s q).2 := by
-  have := runQuery_inv env (fun s t => (CacheInv env s ∧ s.closed = []) ∧ Good Eq env t)
-    (fun s t h => ⟨⟨step_cacheInv h.1.1 h.2.1, by rw [step_closed]; exact h.1.2⟩, step_good_eq h.1.1 h.1.2 h.2⟩)
-    s q ⟨⟨hc, h0⟩, good_init _ env q⟩
-  exact ⟨this.1.1, this.2⟩
+/-- Sequential, any fault state: the shared invariant and `Good` after a query; the query is finished. -/
+theorem runQuery_good {env : Env R Re} {s : State R Re} (q : Query) (hs : SInv env s) :
+    SInv env (runQuery env s q).1 ∧ Good env (runQuery env s q).1 (runQuery env s q).2 ∧
+      (runQuery env s q).2.pc = .done := by
+  have h := runQuery_inv env (fun s t => SInv env s ∧ Good env s t)
+    (fun s t h => ⟨step_sinv h.1 h.2.1, step_good h.1 h.2⟩) s q ⟨hs, good_init env s q⟩
+  refine ⟨h.1, h.2, ?_⟩
+  rcases runQuery_done_or_crash env s q with hd | hc
+  · exact hd
+  · exact absurd hc h.2.2.2
 
-/-- Sequential, any fault state. -/
-theorem runQuery_good_sub {env : Env R} {s : State R} (q : Query) (hc : CacheInv env s) :
-    CacheInv env (runQuery env s q).1 ∧ Good List.Sublist env (runQuery env s q).2 := by
-  exact runQuery_inv env (fun s t => CacheInv env s ∧ Good List.Sublist env t)
-    (fun s t h => ⟨step_cacheInv h.1 h.2.1, step_good_sub h.1 h.2⟩) s q ⟨hc, good_init _ env q⟩
+/-- Sequential, no faults: invariants after a query. -/
+theorem runQuery_goodEq {env : Env R Re} {s : State R Re} (q : Query) (hs : SInv env s) (h0 : s.closed = []) :
+    GoodEq env (runQuery env s q).2 := by
+  have := runQuery_inv env (fun s t => (SInv env s ∧ s.closed = []) ∧ Good env s t ∧ GoodEq env t)
+    (fun s t h => ⟨⟨step_sinv h.1.1 h.2.1.1, by rw [step_closed]; exact h.1.2⟩, step_good h.1.1 h.2.1,
+      step_goodEq h.1.1 h.1.2 h.2.1 h.2.2⟩)
+    s q ⟨⟨hs, h0⟩, good_init env s q, goodEq_init env q⟩
+  exact this.2.2
 
 /-! ### schedules -/
 
-/-- Global invariant of a configuration. -/
-def CInv (rel : List R → List R → Prop) (env : Env R) (c : Config R) : Prop :=
-  CacheInv env c.state ∧ ∀ t ∈ c.threads, Good rel env t
+/-- Global invariant of a configuration, with a per-thread predicate `P`. -/
+def CInv (P : Thread R → Prop) (env : Env R Re) (c : Config R Re) : Prop :=
+  SInv env c.state ∧ ∀ t ∈ c.threads, Good env c.state t ∧ P t
 
-theorem exec_cinv_sub {env : Env R} {c : Config R} (e : Ev) (h : CInv List.Sublist env c) :
-    CInv List.Sublist env (c.exec env e) := by
-  cases e with
-  | close l => exact ⟨h.1, h.2⟩
-  | run tid =>
-    simp only [Config.exec]
-    cases ht : c.threads[tid]? with
-    | none => exact h
-    | some t =>
-      have hm : t ∈ c.threads := List.mem_of_getElem? ht
-      have hg := h.2 t hm
-      refine ⟨step_cacheInv h.1 hg.1, ?_⟩
-      intro t' ht'
-      rcases List.mem_or_eq_of_mem_set ht' with h1 | h1
-      · exact h.2 t' h1
-      · rw [h1]; exact step_good_sub h.1 hg
+theorem cinv_init (P : Thread R → Prop) (env : Env R Re) (s : State R Re) (qs : List Query) (hs : SInv env s)
+    (hP : ∀ q, P (Thread.init q)) : CInv P env ⟨s, qs.map Thread.init⟩ := by
+  refine ⟨hs, ?_⟩
+  intro t ht
+  simp only [List.mem_map] at ht
+  obtain ⟨q, _, rfl⟩ := ht
+  exact ⟨good_init env s q, hP q⟩
 
-theorem run_cinv_sub {env : Env R} (sched : List Ev) : ∀ (c : Config R), CInv List.Sublist env c →
-    CInv List.Sublist env (c.run env sched) := by
-  induction sched with
-  | nil => intro c h; exact h
-  | cons e rest ih => intro c h; exact ih _ (exec_cinv_sub e h)
-
-theorem exec_cinv_eq {env : Env R} {c : Config R} (tid : Nat) (h : CInv Eq env c ∧ c.state.closed = []) :
-    CInv Eq env (c.exec env (.run tid)) ∧ (c.exec env (.run tid)).state.closed = [] := by
-  simp only [Config.exec]
+/-- One action of one thread preserves the invariant of the configuration, provided that thread's own
+    action preserves `P` (the other threads are untouched; their `Good` survives by `good_mono`). -/
+theorem exec_run_cinv {P : Thread R → Prop} {env : Env R Re} {c : Config R Re} (tid : Nat)
+    (hP : ∀ t, Good env c.state t → P t → P (step env c.state t).2) (h : CInv P env c) :
+    CInv P env (c.exec env (.run tid)) := by
+  simp only [Config.exec, Config.execG]
   cases ht : c.threads[tid]? with
   | none => exact h
   | some t =>
     have hm : t ∈ c.threads := List.mem_of_getElem? ht
-    have hg := h.1.2 t hm
-    refine ⟨⟨step_cacheInv h.1.1 hg.1, ?_⟩, by simp only [step_closed]; exact h.2⟩
+    have hg := h.2 t hm
+    refine ⟨step_sinv h.1 hg.1.1, ?_⟩
     intro t' ht'
     rcases List.mem_or_eq_of_mem_set ht' with h1 | h1
-    · exact h.1.2 t' h1
-    · rw [h1]; exact step_good_eq h.1.1 h.2 hg
+    · exact ⟨good_mono (step_cellsLe env c.state t) (h.2 t' h1).1, (h.2 t' h1).2⟩
+    · rw [h1]; exact ⟨step_good h.1 hg.1, hP t hg.1 hg.2⟩
 
-theorem run_cinv_eq {env : Env R} (sched : List Nat) : ∀ (c : Config R), CInv Eq env c ∧ c.state.closed = [] →
-    CInv Eq env (c.run env (sched.map Ev.run)) ∧ (c.run env (sched.map Ev.run)).state.closed = [] := by
+/-- Closing a list touches neither the cache nor the cells. -/
+theorem exec_close_cinv {P : Thread R → Prop} {env : Env R Re} {c : Config R Re} (l : ListId) (h : CInv P env c) :
+    CInv P env (c.exec env (.close l)) := h
+
+theorem run_cinv_eq {env : Env R Re} (sched : List Nat) : ∀ (c : Config R Re),
+    CInv (GoodEq env) env c ∧ c.state.closed = [] →
+    CInv (GoodEq env) env (c.run env (sched.map Ev.run)) ∧ (c.run env (sched.map Ev.run)).state.closed = [] := by
   induction sched with
   | nil => intro c h; exact h
-  | cons e rest ih => intro c h; exact ih _ (exec_cinv_eq e h)
+  | cons e rest ih =>
+    intro c h
+    refine ih _ ⟨exec_run_cinv e (fun t hg he => step_goodEq h.1.1 h.2 hg he) h.1, ?_⟩
+    simp only [Config.exec, Config.execG]
+    cases c.threads[e]? with
+    | none => exact h.2
+    | some t => simp only [step_closed]; exact h.2
 
 end UF.Prog
